@@ -136,6 +136,24 @@ func (p *Path) yield(fr *frame) {
 	p.switchTo(others[k-1])
 }
 
+// yieldVoluntary: an explicit yield written in the harness (verifYield): any runnable goroutine (or the current one) continues;
+// it is a scheduling decision of the program itself and does not count against the bound on involuntary switches.
+func (p *Path) yieldVoluntary(fr *frame) {
+	if p.sched == nil || len(p.sched.gs) == 1 || p.spec {
+		return
+	}
+	s := p.sched
+	others := s.runnable(s.cur)
+	if len(others) == 0 {
+		return
+	}
+	k := p.choose(len(others) + 1)
+	if k == 0 {
+		return
+	}
+	p.switchTo(others[k-1])
+}
+
 // block parks the current goroutine until ready() holds.
 func (p *Path) block(fr *frame, ready func() bool, why string) {
 	if p.spec {
